@@ -104,8 +104,18 @@ let handle (f : string array) : string =
   | "H" ->
     let kinds = String.split_on_char ',' f.(3) in
     let srvs = List.mapi (fun i k -> server_of k (i + 1)) kinds in
-    let ops = List.map op_of (String.split_on_char ';' f.(4)) in
-    let h = hrun_term (nat_of_int (int_of_string f.(2))) srvs ops in
+    let cap = nat_of_int (int_of_string f.(2)) in
+    (* k/src/dst: Config.Clone() - configuration dst becomes a copy of every field of configuration src (same kind):
+       the hops that set keys, suites, policy and the disabled flag of dst to src's current values *)
+    let ops = List.fold_left (fun acc s ->
+        match String.split_on_char '/' s with
+        | ["k"; src; dst] ->
+          let h = hrun_term cap srvs acc in
+          let c = List.nth h.h_srv (int_of_string src) in
+          let d = nat_of_int (int_of_string dst) in
+          acc @ [RotateKeys (d, c.s_keys); ChangeSuites (d, c.s_suites); ChangeClientAuth (d, c.s_auth); DisableTickets (d, c.s_disabled)]
+        | _ -> acc @ [op_of s]) [] (String.split_on_char ';' f.(4)) in
+    let h = hrun_term cap srvs ops in
     (match h.h_log with
      | [] -> "ok -"
      | l -> "ok " ^ String.concat ";" (List.map tok l))
